@@ -4,7 +4,10 @@ import os, sys, re, json, time, random, subprocess, hashlib, shutil, pathlib
 
 VERIF = pathlib.Path(__file__).resolve().parent.parent
 REPO = pathlib.Path(os.environ.get("LUNA_REPO", "/repo"))
-BUILD = VERIF / "_build"
+BUILD_ROOT = VERIF / "_build"
+# experiments against another tree (LUNA_REPO) get their own scratch area so they cannot clobber a
+# concurrent run of the same check against /repo
+BUILD = BUILD_ROOT if str(REPO) == "/repo" else BUILD_ROOT / ("exp_" + REPO.name)
 COQ = VERIF / "coq"
 if str(REPO) not in sys.path:
     sys.path.insert(0, str(REPO))
@@ -151,8 +154,8 @@ def ensure_static_built(needed=None):
     """(Re)build Lib/ and Model/ with make (incremental, under a lock so that concurrent checks do
     not race).  _CoqProject is regenerated from the files present."""
     import fcntl
-    BUILD.mkdir(exist_ok=True)
-    with open(BUILD / ".make.lock", "w") as lk:
+    BUILD_ROOT.mkdir(exist_ok=True)
+    with open(BUILD_ROOT / ".make.lock", "w") as lk:
         fcntl.flock(lk, fcntl.LOCK_EX)
         files = sorted(str(p.relative_to(COQ)) for d in ("Lib", "Model") for p in (COQ / d).glob("*.v"))
         text = "-Q Lib LunaLib\n-Q Model LunaModel\n-Q Properties LunaProps\n" + "\n".join(files) + "\n"
@@ -249,7 +252,7 @@ def write_evidence(pid, tier, seed, coverage, assumptions, wall, violations=0, l
     ev = dict(property_id=pid, tier=tier, seed=int(seed), level=level, coverage=coverage,
               assumptions=assumptions, wall_s=round(wall, 2), violations=violations)
     # evidence/ is only written for runs against /repo itself; experiments with LUNA_REPO go to _build/
-    d = (VERIF / "evidence") if str(REPO) == "/repo" else (BUILD / "evidence_experiments")
+    d = (VERIF / "evidence") if str(REPO) == "/repo" else (BUILD / "evidence")
     d.mkdir(parents=True, exist_ok=True)
     (d / f"{pid}.json").write_text(json.dumps(ev, indent=1, default=str) + "\n")
 
